@@ -756,6 +756,8 @@ type wgenOpts struct {
 	noPreLet   bool // never test `break if` on a let bound before the counter's increment
 	preLetBoost bool // make that form the usual one (knob programs)
 	ptrLet     bool // `let p = &place;` bindings, read and written through `*p`
+	froundBoost bool // knob programs: round() of run-time half-integers stored to the output
+	fround     bool // round() on half-integers (C04/C05 findings: MSL round is ties-away, GLSL round leaves ties open)
 	contCall   bool // a helper that is the only user of a private global, called only from a loop's continuing block / for-update
 }
 
@@ -1154,7 +1156,13 @@ func (g *wgen) builtin(t *wty, depth int) *wexpr {
 		}
 		return call("select", g.expr(t, depth-1), g.expr(t, depth-1), g.runtime(t, depth-1))
 	case "f32":
-		switch g.c.rng.Intn(4) {
+		if g.o.fround && g.c.chance(0.4) {
+			return call("round", g.halves(t))
+		}
+		switch g.c.rng.Intn(6) {
+		case 4, 5:
+			// rounding to an integral value is exact in every target; the operand is a half-integer so that ties occur
+			return call(g.c.pick("floor", "ceil", "trunc"), g.halves(t))
 		case 0:
 			return call("abs", g.leaf(t))
 		case 1:
@@ -1166,6 +1174,21 @@ func (g *wgen) builtin(t *wty, depth int) *wexpr {
 		}
 	}
 	return g.leaf(t)
+}
+
+// halves: a run-time f32 value (or vector of them) in {-4.0, -3.5, …, 3.5}: (f32(inp[k] & 15) - 8.0) / 2.0 — every step exact.
+func (g *wgen) halves(t *wty) *wexpr {
+	if t.k == "vec" {
+		args := make([]*wexpr, t.n)
+		for i := range args {
+			args[i] = g.halves(t.elem)
+		}
+		return &wexpr{k: "cons", ty: t, args: args}
+	}
+	g.f("half-integer")
+	lit := func(v int32) *wexpr { return &wexpr{k: "lit", ty: tF32, bits: uint32(v), konst: true, small: true} }
+	d := &wexpr{k: "bin", ty: tF32, op: "-", args: []*wexpr{g.load(tF32), lit(8)}}
+	return &wexpr{k: "bin", ty: tF32, op: "/", args: []*wexpr{d, lit(2)}}
 }
 
 func (g *wgen) conversion(t *wty, depth int) *wexpr {
@@ -2125,6 +2148,17 @@ func genModule(c *ctx, o wgenOpts) (*wmodule, map[string]int) {
 	if o.fwdNest {
 		addFwdNest(c, g.m)
 		g.f("forwarded-continue-through-two-switches")
+	}
+	if o.froundBoost {
+		// knob programs: at least one round() of a run-time half-integer reaches the output
+		n := 1 + c.rng.Intn(3)
+		pre := []*wstmt{}
+		for i := 0; i < n; i++ {
+			r := &wexpr{k: "call", ty: tF32, name: "round", args: []*wexpr{g.halves(tF32)}}
+			g.f("builtin:round:f32")
+			pre = append(pre, &wstmt{k: "opassign", op: "^", lhs: wOut(uint32(c.rng.Intn(16))), e: wBitcast(tU32, r)})
+		}
+		g.m.entry.body = append(pre, g.m.entry.body...)
 	}
 	if o.preLetBoost {
 		addPreLetLoop(c, g.m)
